@@ -845,6 +845,9 @@ def run_corpus(R):
                           [("ARR", [1, 2, 2], [[[5, 6], [7, 8]]]), ("ARR", [1, 1, 2], [[[9, 10]]])]]), "ndobj"),
         (("array", ("string",), [2, None, 2], [2, 0, 1]),
          ("ARR", [2, 3, 2], [[["a", "bb"], ["ccc", "dddd"], ["e" * 9, ""]], [["f", "g" * 17], ["h", "i"], ["j", "k" * 8]]]), "py"),
+        # the same cyclic-order array as a struct FIELD: the field accessor of the constructed handle is itself a view
+        (("struct", "SV", [("k", ("scalar", 2)), ("g", ("array", ("string",), [2, None, 2], [2, 0, 1]))]),
+         {"k": 7, "g": ("ARR", [2, 3, 2], [[["a", "bb"], ["ccc", "dddd"], ["e" * 9, ""]], [["f", "g" * 17], ["h", "i"], ["j", "k" * 8]]])}, "py"),
         # O-7: capacity strings among array items
         (("struct", "S127", [("f1", ("scalar", 5)), ("f2", ("array", ("string",), [2], [0]))]),
          {"f1": 0, "f2": ("ARR", [2], [("CAP", 7), "abcdefgh"])}, "py"),
